@@ -5,6 +5,8 @@
   (`strconv.Atoi`, the `int32(x)` conversion).  Core Lean only.
 -/
 import ClairModel.Lib.Order
+import ClairModel.Lib.Utf8
+import ClairModel.Gen.Unicode
 
 namespace ClairModel.Version
 open ClairModel.Order
@@ -18,6 +20,13 @@ def isAlpha (c : Char) : Bool := isLower c || isUpper c
 def isAlnum (c : Char) : Bool := isAlpha c || isDigit c
 
 def digitVal (c : Char) : Nat := c.toNat - 48
+
+/-- `unicode.IsSpace` on a rune: the six ASCII white-space characters, and
+    above U+007F the table regenerated from the standard library
+    (Gen/Unicode.lean: U+0085, U+00A0 and the `White_Space` property). -/
+def uniIsSpace (c : Char) : Bool :=
+  c = '\t' || c = '\n' || c = '\x0b' || c = '\x0c' || c = '\r' || c = ' ' ||
+  (decide (128 ≤ c.toNat) && Utf8.inRanges Gen.Unicode.spaceRanges c.toNat)
 
 /-- Value of a string of decimal digits (most significant first). -/
 def natOfDigits (ds : List Char) : Nat := ds.foldl (fun n c => n * 10 + digitVal c) 0
